@@ -18,9 +18,11 @@
 (*                        b   simple key of exactly 256 characters         *)
 (*                        bm  tenant of 241 + '@' + system of 14 (=256)    *)
 (*               invalid: K257 Kup Kempty Kill Kat Kmt15 Kmt242 K8bit      *)
+(*                        KctlFirst K8bitFirst (illegal FIRST byte)        *)
 (* Value classes valid:   s simple, sp inner/leading blanks, b exactly 256,*)
 (*                        x punctuation                                    *)
 (*               invalid: Vtrail Vcomma Veq V257 Vempty Vctl V8bit         *)
+(*                        VctlLast V8bitLast (illegal LAST byte)           *)
 (* (simple keys starting with a digit are in NO class: level-1 and level-2 *)
 (*  of the W3C text disagree on them - a don't-care.)                      *)
 (*                                                                         *)
@@ -39,11 +41,11 @@ Max == 32
 AllDevs == {"set-duplicates-existing-key", "set-existing-at-max-not-updated"}
 
 ValidKC   == {"s", "m", "b", "bm"}
-InvalidKC == {"K257", "Kup", "Kempty", "Kill", "Kat", "Kmt15", "Kmt242", "K8bit"}
+InvalidKC == {"K257", "Kup", "Kempty", "Kill", "Kat", "Kmt15", "Kmt242", "K8bit", "KctlFirst", "K8bitFirst"}
 ValidVC   == {"s", "sp", "b", "x"}
-InvalidVC == {"Vtrail", "Vcomma", "Veq", "V257", "Vempty", "Vctl", "V8bit"}
+InvalidVC == {"Vtrail", "Vcomma", "Veq", "V257", "Vempty", "Vctl", "V8bit", "VctlLast", "V8bitLast"}
 \* inside a header a trailing blank is optional white space and ',' is the separator
-HeaderInvalidVC == {"Veq", "V257", "Vempty", "Vctl", "V8bit"}
+HeaderInvalidVC == {"Veq", "V257", "Vempty", "Vctl", "V8bit", "VctlLast", "V8bitLast"}
 
 ValidKey(k) == k[1] \in ValidKC
 ValidVal(v) == v[1] \in ValidVC
@@ -78,10 +80,11 @@ GetRes(L, k) == IF ValidKey(k) /\ Has(L, k) THEN <<TRUE, FirstVal(L, k)>> ELSE <
 (* ---- headers: a sequence of list-member tokens ------------------------- *)
 \*  t = "kv"    key '=' value, ows = blanks around the member ("none","sp","tab","both")
 \*  t = "empty" empty member (ows = "none") or blank-only member
+\*  t = "junk"  a member made only of illegal bytes (controls that are not white space, DEL, 0x80..0xff)
 \*  t = "noeq"  a member without '='
 Tok(t, k, v, ows) == [t |-> t, k |-> k, v |-> v, ows |-> ows]
 ToHeader(L) == [i \in 1..Len(L) |-> Tok("kv", L[i][1], L[i][2], "none")]
-TokInvalid(x) == x.t = "noeq" \/ (x.t = "kv" /\ (~ValidKey(x.k) \/ ~ValidVal(x.v)))
+TokInvalid(x) == x.t \in {"noeq", "junk"} \/ (x.t = "kv" /\ (~ValidKey(x.k) \/ ~ValidVal(x.v)))
 NonEmpty(h) == SelectSeq(h, LAMBDA x : x.t # "empty")
 \* any invalid member, or more than 32 members -> the empty default state, never a partial list
 FromHeader(h) ==
@@ -114,6 +117,8 @@ ParseHeaders ==
                : n \in {1, 3, 32}}
   \cup UNION {{Replace(Canon(n), p, [Canon(n)[p] EXCEPT !.v = <<vc, 900>>]) : p \in Pos(n), vc \in HeaderInvalidVC}
                : n \in {1, 3, 32}}
+  \cup UNION {{Replace(Canon(n), p, Tok("junk", NoK, NoK, "none")) : p \in Pos(n)} : n \in {1, 3, 32}}
+  \cup UNION {{InsertAt(Canon(n), p, Tok("junk", NoK, NoK, "none")) : p \in {1, n + 1}} : n \in {0, 2, 31}}
   \cup {Replace(Canon(33), 33, [Canon(33)[33] EXCEPT !.k = <<"Kup", 900>>])}
   \cup {InsertAt(InsertAt(Canon(32), 33, Tok("empty", NoK, NoK, "none")), 34, Tok("empty", NoK, NoK, "none"))}
 
